@@ -127,7 +127,7 @@ def decorate(rng, c):
                 if p["K"]["weights"]:
                     _decorate_k(rng, p["K"])
             else:
-                _decorate_t(rng, p["T"])
+                _decorate_t(rng, p["T"], allow_coo=True)     # fifth wave: coo factor matrices inside sums (N-C01-5 repaired)
     else:
         return None
     # magnitudes: values far beyond float32 / int16 precision (exact in int64 / float64), for the ops that only MOVE values
